@@ -997,6 +997,8 @@ func (n *VerifNode) SnapRunCapture() bool {
 			n.snapGate2, n.snapParked = nil, nil
 		case <-n.fsmDead:
 			n.setPanic("fsm")
+		case <-time.After(verifFSMWatchdog):
+			n.setPanic("deadlock.snapshot")
 		}
 	})
 	return ok
@@ -1016,6 +1018,10 @@ func (n *VerifNode) SnapRunFinish() {
 			n.heldSnap = &t
 		case <-n.fsmDead:
 			n.setPanic("fsm")
+		case <-time.After(verifFSMWatchdog):
+			// the snapshot goroutine ended (or hangs) without handing over its result: the state
+			// loop would never see `case t := <-r.snapTakenCh`, Raft.release would wait for ever
+			n.setPanic("deadlock.snapshot")
 		}
 		n.snapReq = nil
 	})
@@ -1034,6 +1040,10 @@ func (n *VerifNode) SnapRun() {
 			n.heldSnap = &t
 		case <-n.fsmDead:
 			n.setPanic("fsm")
+		case <-time.After(verifFSMWatchdog):
+			// the snapshot goroutine ended (or hangs) without handing over its result: the state
+			// loop would never see `case t := <-r.snapTakenCh`, Raft.release would wait for ever
+			n.setPanic("deadlock.snapshot")
 		}
 		n.snapReq = nil
 	})
